@@ -9,5 +9,6 @@ CONSTANTS
   MaxMisplaced = 1
   MaxTop = 3
   MinKids = 0
+  Once = {}
 INVARIANTS TypeOK NeverCrash RejectedHasErrors AcceptedHasNoDangling AcceptedCompiles StackIsOpenChain ProgramWellFormed MisplacedCounted
 CHECK_DEADLOCK FALSE
